@@ -13,6 +13,9 @@ import (
 	"context"
 	"encoding/json"
 	"fmt"
+	"os"
+	"os/exec"
+	"path/filepath"
 	"runtime"
 	"sort"
 	"strings"
@@ -235,6 +238,10 @@ func (r *runner) instantiate(s Step) string {
 		return r.afterFailure()
 	}
 	want := r.m.run(p)
+	if want != "ok" && p.inst.escapedToGlobal() && !r.allowExcluded {
+		r.res.excluded = "function of a failed instance left in an imported funcref global (finding " + findDangle + ")"
+		return ""
+	}
 	if cls != want {
 		return fmt.Sprintf("InstantiateModule(%s as %q) failed with %q; the model expects outcome %q (imports match; constant expressions evaluated with the current values of the imported globals)",
 			spec.Name, s.As, firstLine(err.Error()), want)
@@ -472,7 +479,11 @@ func (r *runner) sweep() string {
 
 func evaluate(c *Case) (msg string, harness string, results []*runResult) {
 	evid.Journal(c)
-	for _, e := range wz.Engines {
+	engines := wz.Engines
+	if e := os.Getenv("VERIF_C04_ENGINE"); e != "" { // debugging aid: run one engine only
+		engines = []string{e}
+	}
+	for _, e := range engines {
 		res := runCase(c, e)
 		results = append(results, res)
 		if res.msg != "" {
@@ -584,6 +595,7 @@ const (
 	findAliasGlobal = "C04-compiler-aliased-imported-globals"
 	findLookupImp   = "C04-lookup-imported-funcref"
 	findReexport    = "C04-compiler-reexported-import-wrong-function"
+	findDangle      = "C04-failed-instance-funcref-global-dangles" // re-run in a child process, see TestKnownDangle
 )
 
 func knownCases() map[string]*Case {
@@ -665,5 +677,63 @@ func TestKnownFindings(t *testing.T) {
 		if evid.Finding(id, "known-"+id, c, "%s: %s", id, msg) {
 			t.Errorf("%s: %s", id, msg)
 		}
+	}
+}
+
+// dangleCase: m1's start function stores its own function in m0's funcref global and traps;
+// after GC m0 calls through the global.
+func dangleCase() *Case {
+	return &Case{AllowExcluded: true, Specs: []*ModSpec{
+		{Name: "m0", Funcs: []FuncSpec{{Sig: 0, ID: 101}}, Globals: []GlobalSpec{{VT: wasmenc.FuncRef, Mut: true, Init: Expr{K: "null"}}}},
+		{Name: "m1", Imports: []ImportSpec{{Mod: "m0", Name: "g0", Kind: kGlobal, VT: wasmenc.FuncRef, Mut: true, Max: noMax}},
+			Funcs:   []FuncSpec{{Sig: 0, ID: 201, Ops: []Op{{K: "ginc", A: 1}}}},
+			Globals: []GlobalSpec{{VT: wasmenc.I32, Mut: true, Init: Expr{K: "i32", V: 5}}},
+			Start:   &StartSpec{Ops: []Op{{K: "gsetf", A: 0, C: 1}}, Trap: true}}},
+		Script: []Step{{Op: "inst", Spec: 0, As: "m0"}, {Op: "inst", Spec: 1, As: "m1", Bytes: true}, {Op: "gc"}, {Op: "gc"}, {Op: "gc"},
+			{Op: "inst", Spec: 0, As: "m0b", Bytes: true}, {Op: "gc"}, {Op: "gc"},
+			{Op: "acc", Inst: "m0", Acc: "gcall", Idx: 0, Sig: 0}, {Op: "acc", Inst: "m0", Acc: "gcall", Idx: 0, Sig: 0}}}
+}
+
+// TestKnownDangle re-runs the input of finding findDangle in a child process (it can kill the
+// process on the compiler) with GODEBUG=clobberfree=1, which makes the use of the collected
+// instance deterministic.
+func TestKnownDangle(t *testing.T) {
+	if evid.ReplayPath() != "" {
+		t.Skip()
+	}
+	if sh, _ := evid.Shard(); sh != 0 {
+		return
+	}
+	c := dangleCase()
+	dir := filepath.Join(evid.WorkDir(), "dangle")
+	os.MkdirAll(dir, 0o755)
+	b, _ := json.Marshal(map[string]any{"property": "C04", "check": "known-" + findDangle, "case": c})
+	rp := filepath.Join(dir, "case.json")
+	if err := os.WriteFile(rp, b, 0o644); err != nil {
+		t.Fatal(err)
+	}
+	cmd := exec.Command(os.Args[0], "-test.run", "^TestReplay$")
+	cmd.Dir = dir
+	for _, kv := range os.Environ() {
+		if strings.HasPrefix(kv, "VERIF_SHARD_OUT=") || strings.HasPrefix(kv, "VERIF_JOURNAL=") || strings.HasPrefix(kv, "VERIF_REPLAY") || strings.HasPrefix(kv, "GODEBUG=") {
+			continue
+		}
+		cmd.Env = append(cmd.Env, kv)
+	}
+	cmd.Env = append(cmd.Env, "VERIF_REPLAY="+rp, "VERIF_REPLAY_DIR="+filepath.Join(dir, "rp"), "GODEBUG=clobberfree=1")
+	out, err := cmd.CombinedOutput()
+	if err == nil {
+		evid.Note("finding %s no longer reproduces on its specific input", findDangle)
+		return
+	}
+	msg := firstLine(strings.TrimSpace(strings.TrimPrefix(string(out), "--- FAIL: TestReplay")))
+	for _, l := range strings.Split(string(out), "\n") {
+		if strings.Contains(l, "step ") || strings.Contains(l, "fatal error") || strings.Contains(l, "SIGSEGV") {
+			msg = strings.TrimSpace(l)
+			break
+		}
+	}
+	if evid.Finding(findDangle, "known-"+findDangle, c, "%s: after the failed instantiation of m1 and GC: %s", findDangle, msg) {
+		t.Errorf("%s: %s", findDangle, msg)
 	}
 }
